@@ -215,6 +215,8 @@ def _phase(draw, ids, in_subtest, strict, simple=False):
     node['dims'] = dims
   if not simple and draw(st.integers(0, 11)) == 0:
     node['callable'] = draw(st.sampled_from(['partial', 'instance']))
+  elif not simple and not timeout_phase and draw(st.integers(0, 29)) == 0:
+    node['monitored'] = 'inner'      # the body wrapped by monitors.monitors(), options etc. declared outside (documented stacking)
   return node
 
 
